@@ -2,7 +2,7 @@
 # confirm_seeded.sh <ID> [<check ids>...] : verify a sub-agent's seeded change in its worktree /tmp/wt/<ID>,
 # store it under /verif/seeded/<ID>/, run the given quick checks against it in /repo, undo, remove the worktree.
 ID=$1; shift; CHECKS="$@"; [ -z "$CHECKS" ] && CHECKS=$ID
-WT=/tmp/wt/$ID; OUT=/verif/seeded/$ID; LOG=/tmp/wt/confirm_$ID.log
+WTBASE=${WTBASE:-/tmp/wt}; WT=$WTBASE/$ID; OUT=/verif/seeded/$ID${SUFFIX:-}; LOG=$WTBASE/confirm_$ID.log
 [ -f $WT/seeded/patch.diff ] || { echo "no patch in $WT/seeded"; exit 1; }
 export CARGO_NET_OFFLINE=true CARGO_TARGET_DIR=$WT/target
 cd $WT
@@ -17,6 +17,7 @@ git apply -R seeded/patch.diff || echo "REVERSE APPLY FAILED" | tee -a $LOG
 ( eval "$RUN" ) >> $LOG.demo2 2>&1; echo "demo rc without change: $?" | tee -a $LOG
 git apply seeded/patch.diff || echo "RE-APPLY FAILED" | tee -a $LOG
 mkdir -p $OUT && cp -r seeded/patch.diff seeded/demo $OUT/ 2>/dev/null; cp seeded/meta.json $OUT/meta.agent.json 2>/dev/null
+if [ -n "$NOCHECK" ]; then cp $LOG $OUT/confirm.log; exit 0; fi
 echo "== my checks against the change" | tee -a $LOG
 unset CARGO_TARGET_DIR
 cd /verif
